@@ -579,7 +579,7 @@ def check(ctx, only=None):
         if e:
             fails[i] = e
     usable = [i for i, o in enumerate(obs) if "text" in o["with"]]
-    bad, cerrs = coq_mismatches(ctx, HARNESS, [case_term(cases[i], obs[i]) for i in usable], shard=25)
+    bad, cerrs = coq_mismatches(ctx, HARNESS, [case_term(cases[i], obs[i]) for i in usable], shard=8)
     bad = [usable[i] for i in bad]
     t3 = time.time()
     print("C13: cases=%d oracle_failures=%d model_mismatches=%d coq_errors=%d (runs %.0fs, coq %.0fs)" % (
